@@ -115,8 +115,11 @@ def cases(ctx):
         hw = rng.choice(["generic", "nv"])
         if hw == "nv" and budget == 1:
             budget = 2
-        yield {"kind": "history", "budget": budget, "hardware": hw, "transpile": hw == "nv" and rng.random() < 0.6,
-               "ops": gen_history(rng, budget, hw)}
+        case = {"kind": "history", "budget": budget, "hardware": hw, "transpile": hw == "nv" and rng.random() < 0.6,
+                "ops": gen_history(rng, budget, hw)}
+        if rng.random() < 0.25:
+            case["prelude"] = rng.randrange(0, budget + 1)
+        yield case
 
 
 class _Refused(Exception):
@@ -142,6 +145,21 @@ def run_case(ctx, case):
                 transpile=case["transpile"], script=[0, 1, 1, 0, 1, 0, 0, 1] * 4)
     ex = pipe.ex
     app = pipe.app_id
+    conn = pipe.conn
+    if case.get("prelude") is not None:
+        # an earlier host program on the same long-lived controller: it closed while still holding `prelude` qubits; the program
+        # under test is the next one and gets the same application id and budget
+        try:
+            for _ in range(case["prelude"]):
+                Qubit(conn)
+            conn.close()
+        except Exception:
+            ctx.count("discarded_prelude")
+            return ctx.case(case, False)
+        es = EPRSocket("bob")
+        conn = pipe.open(epr_sockets=[es])
+        app = conn.app_id
+        ctx.count("histories_after_an_earlier_program")
     handles = {}
     leaky = []            # handles created by sequential / context requests (known to stay active)
     released_ids = set()
@@ -151,7 +169,6 @@ def run_case(ctx, case):
     had_leaky = False
     last_epr = None
     relocation_in_retry_loop = False
-    conn = pipe.conn
     try:
         for o in ops:
             k = o["op"]
